@@ -685,6 +685,31 @@ func TestVerif_LPMKeys(t *testing.T) {
 		if !bytes.Equal(lpm.EncodeLPMKey(noisy, lpm.PrefixLen(plen)), k) {
 			r.Violation("lpmkey/mask", n, map[string]any{"message": fmt.Sprintf("bits beyond the prefix length change the key: %x vs %x /%d", data, noisy, plen)})
 		}
+		// the argument belongs to the caller: windows into a packed buffer (exact length, longer than needed, with and
+		// without spare capacity) give the same key and leave the buffer as it was; the key does not change when the
+		// buffer is edited or the neighbouring window is encoded afterwards
+		nb := (plen + 7) / 8
+		packed := make([]byte, 0, 2*len(data)+8)
+		packed = append(packed, data[:nb]...)
+		packed = append(packed, 0xa5, 0x5a, 0xa5, 0x5a)
+		packed = append(packed, data...)
+		packed = append(packed, 0xc3, 0x3c, 0xc3, 0x3c)
+		before := bytes.Clone(packed)
+		k1 := lpm.EncodeLPMKey(packed[:nb], lpm.PrefixLen(plen))
+		k1c := bytes.Clone(k1)
+		k2 := lpm.EncodeLPMKey(packed[nb+4:nb+4+len(data)], lpm.PrefixLen(plen))
+		if !bytes.Equal(packed, before) {
+			r.Violation("lpmkey/argument-overwritten", n, map[string]any{"message": fmt.Sprintf("EncodeLPMKey on a window of a larger buffer (data %x /%d) changed the caller's buffer: %x -> %x", data, plen, before, packed)})
+		}
+		if !bytes.Equal(k1c, k) || !bytes.Equal(k2, k) || !bytes.Equal(k1, k) {
+			r.Violation("lpmkey/window", n, map[string]any{"message": fmt.Sprintf("EncodeLPMKey(%x,%d): exact-length window gives %x (now %x), full window %x, own slice %x", data, plen, k1c, k1, k2, k)})
+		}
+		for i := range packed {
+			packed[i] ^= 0xff
+		}
+		if !bytes.Equal(k1, k) || !bytes.Equal(k2, k) {
+			r.Violation("lpmkey/aliases-argument", n, map[string]any{"message": fmt.Sprintf("the key returned by EncodeLPMKey(%x,%d) changes when the caller edits its buffer afterwards", data, plen)})
+		}
 	}
 	words := vkit.N(1024, 4096)
 	for plen := 0; plen <= 32; plen++ {
